@@ -1,5 +1,6 @@
 """Property registry for ./check: generation plans, which finding codes belong to which
 property, known-finding matching, trusted base."""
+import json
 
 CODES = {
     1: "the implementation's result differs from the model's result on this input",
@@ -114,4 +115,58 @@ def match_known(pid, codes, hist, step, known):
             op = hist["steps"][step]["op"]
             if op.get("glist"):
                 return kf
+        if cls == "integers-equal-as-float64" and set(codes) <= {1, 40} and _sort_int_tie_instance(hist, step):
+            return kf
     return None
+
+
+INT_KINDS = {"int", "int8", "int16", "int32", "int64", "uint", "uint8", "uint16", "uint32", "uint64"}
+
+
+def _sort_int_tie_instance(hist, step):
+    """the failing step is a SortValues whose sort columns hold only integers and nils, at least one of them with two
+    different integers that convert to the same float64, and the real output is exactly what the pinned comparator
+    promises: the source's rows, each kept whole, in order of the float64 images of the keys (nils last)"""
+    st = hist["steps"][step]
+    op, out = st["op"], st["out"]
+    if op.get("k") != "sort" or out.get("status") != "ok":
+        return False
+    if any(s["op"].get("k") not in ("sort", "nrows", "columnnames", "row", "string", "tocsv") for s in hist["steps"][:step]):
+        return False
+    if not (0 <= op.get("f", 0) < len(hist["pool"])):
+        return False
+    src = {c["key"]: c["data"] for c in hist["pool"][op.get("f", 0)]["cols"]}
+    res = {c["key"]: c["data"] for c in ((out.get("val") or {}).get("frame") or {}).get("cols", [])}
+    by = op.get("strs") or []
+    asc = op.get("asc", True)
+    if asc is None:
+        asc = True
+    if not by or set(src) != set(res) or any(k not in src for k in by):
+        return False
+    n = len(next(iter(src.values()))) if src else 0
+    if any(len(d) != n for d in src.values()) or any(len(d) != n for d in res.values()):
+        return False
+
+    def ival(c):
+        return None if c.get("t") == "nil" else int(c["i"])
+    collision = False
+    for k in by:
+        if any(c.get("t") != "nil" and c.get("t") not in INT_KINDS for c in src[k]):
+            return False
+        vals = {ival(c) for c in src[k] if c.get("t") != "nil"}
+        if len({float(v) for v in vals}) < len(vals):
+            collision = True
+    if not collision:
+        return False
+    names = sorted(src)
+    rows = lambda fr: sorted(json.dumps([fr[k][i] for k in names], sort_keys=True) for i in range(n))
+    if rows(src) != rows(res):
+        return False
+
+    def key(i):
+        out_ = []
+        for k in by:
+            v = ival(res[k][i])
+            out_.append((1, 0.0) if v is None else (0, float(v) if asc else -float(v)))
+        return out_
+    return all(key(i) <= key(i + 1) for i in range(n - 1))
